@@ -13,6 +13,7 @@ func init() {
 	register(&Property{
 		ID: "C12",
 		Explanation: "Resource typestate/pairing on every path: R12.1 Submit derives the request context from WithTimeout/WithCancel of (operation.Context, else Runtime.Context, else Background), defers its cancel before any later return and sends the request under that context; R12.2 on the success edge of client.Do the response body's Close is deferred before any further return; " +
+			"Round 12: R12.6 after the go statement of the multipart writer the request body is never reset to nil. " +
 			"R12.3 the multipart pipe is never orphaned: once the writer goroutine is started, every error return of buildHTTP releases the read end (a deferred guard that closes it unless the request was built, armed before the go statement, and disarmed only on the success return); R12.4 in the goroutine the closing of ALL upload files and of the pipe writer is registered before anything can fail, and every failing step reaches pw.CloseWithError (a failing upload source can never look like a complete body); " +
 			"R12.5 keep-alive body: Close always closes the wrapped body and returns its error, drains only when the end was not seen, the end is recorded only on io.EOF or a zero-byte read, and the transport wraps only successful responses; R12.6 the only goroutines started by client calls are the multipart writer (and the CSV producer's errgroup). " +
 			"R12.5 also: every successful response leaves the keep-alive RoundTrip with its body wrapped (only a nil or http.NoBody body may stay unwrapped). " +
@@ -746,6 +747,12 @@ func runC12(c *Ctx) {
 								}
 								if !isNilConst(st.Val) {
 									walk(st.Val)
+									continue
+								}
+								// (a reset that cannot reach the request's construction any more — `pr = nil` once the request owns the
+								// pipe — drops nothing)
+								nrIn := nr.(ssa.Instruction)
+								if !(st.Block() == nrIn.Block() && dominates(st, nrIn) || st.Block() != nrIn.Block() && reachableFrom(st.Block(), nrIn.Block())) {
 									continue
 								}
 								for _, gi := range gos {
